@@ -70,7 +70,7 @@ func (s Shared) value(class string, key int) string {
 }
 
 type Op struct {
-	K     byte // U update, X delete, C commit(level)+batch commit, G DeleteNodes, L reload, R Root(), P SaveRoot, B Rollback, T RollbackTrie
+	K     byte // U update, X delete, C commit(level)+batch commit, G DeleteNodes, L reload, R Root(), P SaveRoot, B Rollback, T RollbackTrie, Y snapshot (CopyRoot), V/W update/delete through the snapshot
 	Key   int
 	Val   string
 	Level int
@@ -96,6 +96,12 @@ func (o Op) String() string {
 		return "Rollback"
 	case 'T':
 		return "RollbackTrie(checkpoint node)"
+	case 'Y':
+		return fmt.Sprintf("snapshot = New(CopyRoot(%d))", o.Level)
+	case 'V':
+		return fmt.Sprintf("snapshot.Update(k%d,%s*,w=%d)", o.Key, o.Val, Weight(o.Val))
+	case 'W':
+		return fmt.Sprintf("snapshot.Update(k%d,nil) [delete]", o.Key)
 	}
 	return "?"
 }
@@ -125,6 +131,9 @@ type World struct {
 	// context of the last failed recovery check (for attributing it to a known finding)
 	FailCP    *commitPoint
 	FailStore *dev.Store
+	// a snapshot taken with CopyRoot: a trie of its own from then on
+	Snap  *wmpt.WeightedMerkleTrie
+	SnapM *model.WModel
 }
 
 func NewWorld(sh Shared) *World {
@@ -206,6 +215,25 @@ func (w *World) Apply(o Op) (fail string) {
 	case 'R':
 		if got, want := w.T.Root(), w.M.Root(); !bytes.Equal(got, want) {
 			return fmt.Sprintf("Root() = %x, independent computation from the live set gives %x", got, want)
+		}
+	case 'Y':
+		w.Snap = wmpt.New(w.T.CopyRoot(o.Level), w.S)
+		w.SnapM = w.M.Clone()
+	case 'V':
+		v := w.Shared.value(o.Val, o.Key)
+		if err := w.Snap.Update(Keys[o.Key], []byte(v), Weight(v)); err != nil {
+			return fmt.Sprintf("update through the snapshot returned %v", err)
+		}
+		w.SnapM.M[string(Keys[o.Key])] = model.WEntry{Key: Keys[o.Key], Value: []byte(v), Weight: Weight(v)}
+	case 'W':
+		err := w.Snap.Update(Keys[o.Key], nil, 0)
+		if _, ok := w.SnapM.M[string(Keys[o.Key])]; ok {
+			if err != nil {
+				return fmt.Sprintf("delete of a live key through the snapshot returned %v", err)
+			}
+			delete(w.SnapM.M, string(Keys[o.Key]))
+		} else if !errors.Is(err, wmpt.ErrNotFound) {
+			return fmt.Sprintf("delete of an absent key through the snapshot returned %v, want ErrNotFound", err)
 		}
 	case 'P':
 		w.T.SaveRoot()
@@ -302,6 +330,9 @@ func (w *World) Key() string {
 		fmt.Fprintf(&sb, "chk=%x{%s}since=%d rb=%v keys=%x|", w.Chk.root[:6], modelKey(w.Chk.m), w.SinceChk, w.RolledBack, model.Sha3([]byte(strings.Join(ck, "")))[:8])
 	}
 	sb.WriteString(dumpTrie(w.T))
+	if w.Snap != nil {
+		sb.WriteString("|snap{" + modelKey(w.SnapM) + "}" + dumpTrie(w.Snap))
+	}
 	sb.WriteString("|store:")
 	for _, k := range w.S.Keys() {
 		fmt.Fprintf(&sb, "%x,", k[:10])
